@@ -1,13 +1,15 @@
 /* C24 -- FastRational::mpqPool::alloc / release: every access to the process-wide pool containers happens while the pool's
  * own mutex is held.  std::stack, std::mutex, std::lock_guard are stubs with their standard contracts plus a ghost "held"
- * flag; the lock_guard destructor (unlock at scope exit) is dropped by the lowering, so "held until the function returns"
- * is the modelled lifetime. */
+ * flag; the lock_guard destructor (unlock at scope exit) is kept by the lowering as a scope-exit stub call,
+ * so the lock is held exactly from construction to the end of the enclosing block. */
 #ifndef POOL_H
 #define POOL_H
 t_bool nondet_bool(void); void *malloc(__CPROVER_size_t); int __osmt_thrown;
 void *g_held_mutex;            /* ghost: the mutex currently held by this thread (0 = none) */
 struct FastRational__mpqPool *g_pool_obj;   /* the pool the call works on */
 t_int g_pool_size; mpq_ptr g_pool_top; t_int g_store_size;
+/* lock_guard destructor at scope exit (kept by the lowering for lock objects): the mutex is released */
+#define OSMT_SCOPE_EXIT_std_lock_guard_std_mutex(l) (__CPROVER_assert(g_held_mutex != (void *)0, "unlock of a held mutex"), g_held_mutex = (void *)0)
 #define POOL_LOCKED(what) __CPROVER_assert(g_held_mutex == (void *)&g_pool_obj->mtx, "shared pool container accessed while the pool mutex is held: " what)
 void std_lock_guard_std_mutex__ctor__std_lock_guard_std_mutex___mutex_type_R(x_std_lock_guard_std_mutex *self, x_std_lock_guard_std_mutex___mutex_type *m) {
   __CPROVER_assert(g_held_mutex == (void *)0, "no lock is taken twice (std::mutex is not recursive)"); g_held_mutex = (void *)m; }
